@@ -22,6 +22,9 @@ CLAIMS = {
     "C02": ("proof",
             "The property's domain is finite and is enumerated completely on every run: for each of the 530 tabulated (number, choice) settings the real constructor, reduce/expand functions and both lookups are executed and the group axioms (duplicate-free, identity, closure, inverses modulo the lattice, centrosymmetric flag) are decided in exact integer arithmetic on the operations as decoded (the decoding is proved for all codes in C11); table-independent paths (range checks, LATT value and sign) are VCs from the source.",
             "finite domain = the bundled sgdata.json as loaded; decode spec from C11"),
+    "C14": ("proof",
+            "A property of histories, decided as a representation invariant plus frame conditions on the real class: the frame checker infers assigns(m) for every method of Crystal (aliases, in-place operations, setattr/delattr, transitive self calls) and discharges: every query is pure w.r.t. cell/space group/asymmetric unit; each memo field has a single writer behind its `if hasattr: return` guard and is computed from core state only; every method that assigns core state deletes every memo field after its last core store and drops/refreshes stale stored CIF items; objects held by memos are read-only apart from one write-once annotation. The induction over history length is the cited Hoare-logic meta-theorem; a native replay of histories up to length 3-4 against fresh crystals is the bounded stand-in for it.",
+            "syntactic frame inference (assumes called numpy/scipy/chmpy helpers mutate arguments only through tracked forms); memo fields are not keyed by query arguments (statement's proviso)"),
 }
 
 NA_PENDING = "check not built yet in this session (see DESIGN.md section 8 build order)"
